@@ -10,7 +10,10 @@ What is observed (nothing inside kopf is wrapped or patched: no `observe.install
 `run_contained(sc, wall_limit)` has the signature of `scenario.run_scenario` (harness.sim.worker's `runner` hook).
 Scenario keys beyond harness.sim.scenario's: `patch_faults`: {object name: [fault spec | null, ...]} — the i-th
 PATCH request for that object gets the i-th entry (null = served normally); fault specs as in scenario.py
-(["status", code, headers, details] | ["conn-before"] | ["timeout"]).
+(["status", code, headers, details] | ["conn-before"] | ["timeout"]). The requests of an object are those of the
+object itself and of its /status subresource (`sub`), in the order the server received them, whatever their
+Content-Type (`ctype`: merge-patch or json-patch): which of the requests of `patching.patch_obj` the i-th fault
+hits is decided by what the real operator sends.
 """
 from __future__ import annotations
 
@@ -31,10 +34,11 @@ def run_contained(sc: dict, wall_limit: float = 60.0) -> dict:
         def rule(req: dict) -> Any:
             if req["method"] != "PATCH" or "/kopfexamples/" not in req["path"]:
                 return None
-            name = req["path"].rsplit("/", 1)[-1]
+            tail = req["path"].split("/kopfexamples/", 1)[1].split("?", 1)[0].strip("/").split("/")
+            name, sub = tail[0], (tail[1] if len(tail) > 1 else None)
             q = queues.get(name)
             spec = q.pop(0) if q else None
-            req["c12"] = {"name": name, "spec": spec}
+            req["c12"] = {"name": name, "sub": sub, "spec": spec}
             # when the answer (or the error) reaches the client: the server's latency, plus the whole client-side
             # timeout for a request that is never answered
             req["c12"]["t_end"] = req["wall"] + sim.cluster.latency + (timeout_total if spec and spec[0] == "timeout" else 0.0)
@@ -55,7 +59,7 @@ def run_contained(sc: dict, wall_limit: float = 60.0) -> dict:
                 continue
             patches.setdefault(info["name"], []).append(
                 {"t": r["wall"], "t_end": info["t_end"], "spec": info["spec"], "resp": r.get("response"),
-                 "ctype": r.get("ctype")})
+                 "ctype": r.get("ctype"), "sub": info.get("sub")})
         calls = [[c.get("name"), c["t"], c["id"]] for c in sim.obs.calls]
         return {"patches": patches, "calls": calls, "marks": [dict(m) for m in sim.marks], "died": died,
                 "requests": len(sim.cluster.requests)}
